@@ -163,7 +163,7 @@ fn dispatch_family(st: &mut Stats, maxlen: usize) {
 
 pub fn run(mut cx: Ctx) -> ! {
     cx.rule = "every (pattern, text) pair of the bounded families is run through the real wildcard_match and compared with a DP glob matcher; states = distinct pairs, transitions = calls; non-trivial = pattern has both a `*` and a literal and the text is non-empty".into();
-    let (pl, tl) = (cx.pick(7, 7), cx.pick(9, 11));
+    let (pl, tl) = (cx.pick(7, 8), cx.pick(11, 12));
     cx.bound("pattern_len", pl);
     cx.bound("text_len", tl);
     let mut st = Stats::default();
@@ -175,7 +175,7 @@ pub fn run(mut cx: Ctx) -> ! {
     // texts that themselves contain `*` (a literal character on the text side)
     family(&mut st, "star-in-text", &words(&['*', 'a', 'b'], 5), &words(&['a', 'b', '*'], 6));
     // host-shaped families with self-overlapping literals
-    let lmax = cx.pick(3, 4);
+    let lmax = cx.pick(4, 4);
     let labels = words(&['a', '.'], lmax);
     let mut pats = vec![];
     for l1 in &labels {
@@ -194,11 +194,11 @@ pub fn run(mut cx: Ctx) -> ! {
     }
     pats.sort();
     pats.dedup();
-    let tmax = cx.pick(9, 12);
+    let tmax = cx.pick(12, 14);
     cx.bound("host_family_label_len", lmax);
     cx.bound("host_family_text_len", tmax);
     family(&mut st, "host-shaped", &pats, &words(&['a', '.'], tmax));
-    let dl = cx.pick(3, 4);
+    let dl = cx.pick(4, 4);
     cx.bound("dispatch_family_len", dl);
     dispatch_family(&mut st, dl);
     cx.stats.merge(st);
